@@ -43,10 +43,12 @@ const (
 type absMsg struct {
 	T       string `json:"t"`
 	From    int    `json:"from"`
+	R       int    `json:"r"` // round whose identity list the message carries (1-based; 0 = none of them)
+	X       int    `json:"x"` // round the flavour extra was made for (0 = no extra)
 	Signers []int  `json:"signers"`
 }
 
-func (a absMsg) key() string { return fmt.Sprintf("%s/%d/%v", a.T, a.From, a.Signers) }
+func (a absMsg) key() string { return fmt.Sprintf("%s/%d/%d/%d/%v", a.T, a.From, a.R, a.X, a.Signers) }
 
 type prodObs struct {
 	M   absMsg `json:"m"`
@@ -113,7 +115,8 @@ type simNode struct {
 type simNet struct {
 	flavour  string
 	w        *World
-	idents   []string
+	rounds   [][]string // identity list of every trigger round, in wire order
+	idents   []string   // union of the rounds, first appearance order
 	kinds    []string
 	keys     []*ecdsa.PrivateKey
 	addrs    []common.Address
@@ -121,30 +124,80 @@ type simNet struct {
 	an       *p2p.P2PMessaging // the gnosis access node's registries
 	inflight []*packet
 	prod     []prodObs // messages produced during the current step
-	idHash   []byte
+	idHash   [][]byte // identities hash of round r at index r-1
 	ctx      context.Context
 	cancel   context.CancelFunc
 }
 
-func (n *simNet) identities() []identitypreimage.IdentityPreimage {
+func (n *simNet) identities(r int) []identitypreimage.IdentityPreimage {
 	var l []identitypreimage.IdentityPreimage
-	for _, id := range n.idents {
+	for _, id := range n.rounds[r-1] {
 		l = append(l, n.w.Identity(id))
 	}
 	return l
 }
 
-func newSimNet(flavour string, nn, t int, idents []string, seed int64) (*simNet, error) {
+// roundOf returns the round whose identity list is exactly ids (0 if none).
+func (n *simNet) roundOf(ids [][]byte) int {
+	for r, l := range n.rounds {
+		if len(l) != len(ids) {
+			continue
+		}
+		same := true
+		for k, id := range l {
+			if string(n.w.Identity(id)) != string(ids[k]) {
+				same = false
+			}
+		}
+		if same {
+			return r + 1
+		}
+	}
+	return 0
+}
+
+func (n *simNet) roundOfSlot(slot uint64) int {
+	r := int(int64(slot) - gSlot + 1)
+	if r < 1 || r > len(n.rounds) {
+		return 99
+	}
+	return r
+}
+
+func (n *simNet) roundOfHash(h []byte) int {
+	for r, x := range n.idHash {
+		if string(x) == string(h) {
+			return r + 1
+		}
+	}
+	return 0
+}
+
+func newSimNet(flavour string, nn, t int, rounds [][]string, seed int64) (*simNet, error) {
+	var idents []string
+	seen := map[string]bool{}
+	for _, l := range rounds {
+		for _, id := range l {
+			if !seen[id] {
+				seen[id] = true
+				idents = append(idents, id)
+			}
+		}
+	}
 	ctx, cancel := context.WithCancel(context.Background())
 	idLen := map[string]int{"core": 0, "gnosis": 52, "service": 32}[flavour]
-	n := &simNet{flavour: flavour, w: NewWorldIDLen(nn, t, idents, seed, idLen), idents: idents, kinds: []string{"valid"}, ctx: ctx, cancel: cancel}
+	n := &simNet{flavour: flavour, w: NewWorldIDLen(nn, t, idents, seed, idLen), rounds: rounds, idents: idents, kinds: []string{"valid"}, ctx: ctx, cancel: cancel}
 	n.keys = KeyperKeys(nn, seed)
 	n.addrs = addrsOf(n.keys)
-	switch flavour {
-	case "gnosis":
-		n.idHash = gnosis.VerifGossipIdentitiesHash(n.identities())
-	case "service":
-		n.idHash = shutterservice.VerifGossipIdentitiesHash(n.identities())
+	for r := range rounds {
+		switch flavour {
+		case "gnosis":
+			n.idHash = append(n.idHash, gnosis.VerifGossipIdentitiesHash(n.identities(r+1)))
+		case "service":
+			n.idHash = append(n.idHash, shutterservice.VerifGossipIdentitiesHash(n.identities(r+1)))
+		default:
+			n.idHash = append(n.idHash, nil)
+		}
 	}
 	for i := 0; i < nn; i++ {
 		nd, err := n.newNode(i)
@@ -233,20 +286,35 @@ func (n *simNet) abstract(from int, msg p2pmsg.Message) absMsg {
 	switch m := msg.(type) {
 	case *p2pmsg.DecryptionKeyShares:
 		a.T = "shares"
-		if int(m.KeyperIndex) != from || len(m.Shares) != len(n.idents) {
+		var ids [][]byte
+		for _, sh := range m.Shares {
+			ids = append(ids, sh.IdentityPreimage)
+		}
+		a.R = n.roundOf(ids)
+		if int(m.KeyperIndex) != from {
 			a.T = "shares?"
+		}
+		switch e := m.Extra.(type) {
+		case *p2pmsg.DecryptionKeyShares_Gnosis:
+			a.X = n.roundOfSlot(e.Gnosis.GetSlot())
+		case *p2pmsg.DecryptionKeyShares_Service:
+			a.X = a.R // the signature is over the identities of the message
 		}
 	case *p2pmsg.DecryptionKeys:
 		a.T = "keys"
-		if len(m.Keys) != len(n.idents) {
-			a.T = "keys?"
+		var ids [][]byte
+		for _, k := range m.Keys {
+			ids = append(ids, k.IdentityPreimage)
 		}
+		a.R = n.roundOf(ids)
 		var idx []uint64
 		switch e := m.Extra.(type) {
 		case *p2pmsg.DecryptionKeys_Gnosis:
 			idx = e.Gnosis.GetSignerIndices()
+			a.X = n.roundOfSlot(e.Gnosis.GetSlot())
 		case *p2pmsg.DecryptionKeys_Service:
 			idx = e.Service.GetSignerIndices()
+			a.X = a.R // the signatures are selected by the identities hash of the keys
 		}
 		for _, s := range idx {
 			a.Signers = append(a.Signers, int(s))
@@ -300,17 +368,17 @@ func (n *simNet) find(m absMsg, dest int) int {
 
 // trigger is Trigger(i): the flavour's trigger production, then one event through the real
 // KeyShareHandler service; returns after the service has set the event's result.
-func (n *simNet) trigger(i int) (errs string) {
+func (n *simNet) trigger(i, r int) (errs string) {
 	nd := n.nodes[i]
 	if n.flavour == "gnosis" {
 		// keyperimpl/gnosis/newslot.go triggerDecryption: current_decryption_trigger is written
 		// before the trigger is emitted
 		if err := gnosisdb.New(nd.pool).SetCurrentDecryptionTrigger(n.ctx, gnosisdb.SetCurrentDecryptionTriggerParams{
-			Eon: KeyperConfigIdx, Slot: gSlot, TxPointer: gTxPointer, IdentitiesHash: n.idHash}); err != nil {
+			Eon: KeyperConfigIdx, Slot: gSlot + int64(r) - 1, TxPointer: gTxPointer, IdentitiesHash: n.idHash[r-1]}); err != nil {
 			return "harness: " + err.Error()
 		}
 	}
-	ev := broker.NewEvent(&epochkghandler.DecryptionTrigger{BlockNumber: uint64(ActivationBlock + 1), IdentityPreimages: n.identities()})
+	ev := broker.NewEvent(&epochkghandler.DecryptionTrigger{BlockNumber: uint64(ActivationBlock + 1), IdentityPreimages: n.identities(r)})
 	select {
 	case nd.trigC <- ev:
 	case <-time.After(20 * time.Second):
@@ -372,22 +440,32 @@ func (n *simNet) tables() []any {
 			sort.Ints(l)
 			shares[id] = l
 		}
-		sigs := []int{}
-		cur := false
-		ptr := "init"
+		sigs := make([][]int, len(n.rounds))
+		for r := range sigs {
+			sigs[r] = []int{}
+		}
+		cur := 0
+		ptr := -1
 		nd.srv.View(func(db *fakepg.DB) {
 			switch n.flavour {
 			case "gnosis":
 				for _, r := range db.SlotDecryptionSignatures {
 					s := int(r.KeyperIndex)
-					if r.Eon != KeyperConfigIdx || r.Slot != gSlot || r.TxPointer != gTxPointer || string(r.IdentitiesHash) != string(n.idHash) {
-						s = -1 - s
+					rd := n.roundOfSlot(uint64(r.Slot))
+					if r.Eon != KeyperConfigIdx || rd == 99 || r.TxPointer != gTxPointer || string(r.IdentitiesHash) != string(n.idHash[rd-1]) {
+						s = -1 - s // a row that does not belong to a trigger of the schedule
+						if rd == 99 {
+							rd = 1
+						}
 					}
-					sigs = append(sigs, s)
+					sigs[rd-1] = append(sigs[rd-1], s)
 				}
 				for _, r := range db.GnosisCurrentDecryptionTrigger {
 					if r.Eon == KeyperConfigIdx {
-						cur = r.Slot == gSlot && r.TxPointer == gTxPointer && string(r.IdentitiesHash) == string(n.idHash)
+						cur = n.roundOfSlot(uint64(r.Slot))
+						if cur == 99 || r.TxPointer != gTxPointer || string(r.IdentitiesHash) != string(n.idHash[cur-1]) {
+							cur = -1
+						}
 					}
 				}
 				for _, r := range db.TxPointer {
@@ -395,25 +473,25 @@ func (n *simNet) tables() []any {
 						continue
 					}
 					if r.Age.Valid && r.Age.Int64 == 0 {
-						ptr = "adv"
-						if r.Value != gTxPointer+int64(len(n.idents))-1 {
-							ptr = "bad"
-						}
+						ptr = int(r.Value - gTxPointer) // set by a keys message: pointer of the trigger + len(keys) - 1
 					} else if r.Value != gTxPointer {
-						ptr = "bad"
+						ptr = -99
 					}
 				}
 			case "service":
 				for _, r := range db.DecryptionSignatures {
 					s := int(r.KeyperIndex)
-					if r.Eon != KeyperConfigIdx || string(r.IdentitiesHash) != string(n.idHash) {
-						s = -1 - s
+					rd := n.roundOfHash(r.IdentitiesHash)
+					if r.Eon != KeyperConfigIdx || rd == 0 {
+						s, rd = -1-s, 1
 					}
-					sigs = append(sigs, s)
+					sigs[rd-1] = append(sigs[rd-1], s)
 				}
 			}
 		})
-		sort.Ints(sigs)
+		for r := range sigs {
+			sort.Ints(sigs[r])
+		}
 		out = append(out, map[string]any{"shares": shares, "keys": kt, "sigs": sigs, "cur": cur, "ptr": ptr})
 	}
 	return out
